@@ -92,6 +92,10 @@ func c01(c *Ctx) {
 	for _, d := range ck.IP.Diag {
 		r.Unknown("A0", "diag/"+d, "", d)
 	}
+	// the stuffing adaptation field WriteData builds for n free bytes occupies exactly n bytes (otherwise writePacket
+	// pads after the payload and the demuxer returns the padding as payload)
+	lk := layout.New(c.P)
+	lk.MadeSize(r, "stuffing/newStuffingAdaptationField=writePacketAdaptationField", c.fn("newStuffingAdaptationField"), c.fn("writePacketAdaptationField"), 1)
 	muxstate.ESPairing(c.P, r)
 	c01AFCarried(c)
 	muxstate.AutoPID(c.P, r, muxstate.RuleAutoPID)
